@@ -62,7 +62,7 @@ def check_weight(R, monitor, model, opts, where):
             R.check(monitor, np.allclose(w, 1 / K, rtol=0, atol=4 * weps), f'domain/weight-uniform/{name}', f'{where}: weight tied over classes is not 1/K', prop='C09')
             return
     tol = Kc * eps_aff + 16 * Kc * weps
-    if opts.get('mask') is not None:
+    if opts.get('mask') is not None or opts.get('zero_columns_ok'):
         # frames in which the mask switches every class off (for all tied slices) carry no prior mass at all
         s = np.where(s == 0, 1.0, s)
     dev = float(np.abs(s - 1).max())
